@@ -247,7 +247,7 @@ class DavSys:
                 out.append((c, None))
                 continue
             mem = tuple(sorted((self.canon_name(n), self.body_class(c, b)) for n, b in m["members"].items()))
-            props = tuple(sorted(m["props"].items()))
+            props = tuple(sorted(m["props"].items())) + tuple(("member-prop:" + k, v) for k, v in sorted((m.get("mprops") or {}).items()))
             out.append((c, m["kind"], mem, props))
         return tuple(out)
 
@@ -437,6 +437,22 @@ class DavSys:
                         self.model[coll]["props"].pop(pkey, None)
                     else:
                         self.model[coll]["props"][pkey] = value
+        elif kind == "mprop":
+            # PROPPATCH of a property of a MEMBER (not of the collection)
+            _, coll, name, pkey, value = op
+            target_coll, target_name = coll, name
+            tag = {"executable": "{http://apache.org/dav/props/}executable", "displayname": dav.P_DISPLAYNAME, "contenttype": "{DAV:}getcontenttype", "dead": "{http://example.com/ns}note"}[pkey]
+            resp = self.req("PROPPATCH", self.url(coll, name), dav.XML_CT, dav.proppatch_body(sets=[(tag, value)]))
+            st = resp.status
+            info["status"] = st
+            if st == 207:
+                ms = dav.parse_multistatus(resp.body)
+                if not ms.parse_error and len(ms.responses) == 1 and ms.responses[0].prop_status(tag) == 200:
+                    info["success"] = True
+                    # an acknowledged member-property write is part of the history that reaches a state (it may have
+                    # touched things the client cannot see), so it is part of the state key
+                    if self.model.get(coll) is not None:
+                        self.model[coll].setdefault("mprops", {})["%s:%s" % (name, pkey)] = value
         elif kind == "restart":
             self.world.restart()
             if self.world_b is not None:
@@ -1250,6 +1266,10 @@ def default_ops(s):
     if "nope" in cfg.features:
         ops.append(("put", "nope", "a.ics", cfg.bodies["cal"][0]))
         ops.append(("delete", "nope", "a.ics"))
+    if "member-props" in cfg.features and s.model.get("cal") is not None:
+        nm0 = cfg.names["cal"][0]
+        if nm0 in s.model["cal"]["members"]:
+            ops += [("mprop", "cal", nm0, "executable", "T"), ("mprop", "cal", nm0, "executable", "F"), ("mprop", "cal", nm0, "displayname", "x"), ("mprop", "cal", nm0, "dead", "x")]
     if "queries" in cfg.features and s.model.get("cal") is not None:
         # a calendar-query whose filter has index keys (with --index-threshold 0 the first one builds the index)
         ops.append(("query", "cal"))
